@@ -5,12 +5,12 @@ from harness import common
 from harness.common import Result, hexs, unhext
 
 PROP = 'C16'
-LEAN_TARGETS = ['TxV.Props.C16']
-PROP_MODULES = ['TxV.Props.C16']
+LEAN_TARGETS = ['TxV.Props.C16', 'TxV.Props.C16b']
+PROP_MODULES = ['TxV.Props.C16', 'TxV.Props.C16b']
 AUDIT = 'Audit/C16.lean'
 ANCHORS = ['txtorcon/_microdesc_parser.py', 'txtorcon/torstate.py', 'txtorcon/router.py']
 RULE = ('sequences of 1..5 documents over a pool of 12 relays and 6 nicknames (duplicates on purpose): each document holds 0..10 relays with '
-        'optional a (IPv6) / w / p lines in the orders dir-spec allows, flags appearing and disappearing (Guard, Authority, Named, …, mixed case), '
+        'optional a (IPv6) / w (with and without Measured= / Unmeasured= keywords) / p lines in the orders dir-spec allows, flags appearing and disappearing (Guard, Authority, Named, …, mixed case), '
         'relays joining and leaving; the first document is delivered as the GETINFO ns/all listing of the real bootstrap, the others as '
         'NEWCONSENSUS events; after each document all six indexes and every Router attribute are dumped. Codec: hexIdFromHash/hashFromHexId on '
         'random 20-byte ids. non-trivial = at least 2 documents with a relay common to two consecutive ones; distinct = distinct sequences')
@@ -40,7 +40,9 @@ def gen_relay(rng, i):
     r = {'id': i, 'nick': rng.choice(NICKS), 'ip': '10.0.%d.%d' % (i, rng.randrange(256)), 'orport': str(rng.choice([9001, 443])),
          'dirport': str(rng.choice([0, 9030])), 'flags': rng.sample(FLAGS, rng.randint(0, 4)),
          'v6': ['[2001:db8::%x]:%d' % (i, 9001)] if rng.random() < 0.3 else [], 'bw': rng.choice([None, None, 0, 100, 54321]),
-         'p': rng.random() < 0.6, 'v6twice': rng.random() < 0.1}
+         'p': rng.random() < 0.6, 'v6twice': rng.random() < 0.1,
+         # dir-spec: "w" SP "Bandwidth=" INT [SP "Measured=" INT] [SP "Unmeasured=1"]
+         'wextra': rng.choice(['', '', ' Unmeasured=1', ' Measured=804', ' Measured=7 Unmeasured=1'])}
     return r
 
 
@@ -56,7 +58,7 @@ def render_relay(r):
     lines.append('s ' + ' '.join(r['flags']))
     typed.append('s ' + (','.join(hexs(f) for f in r['flags']) or '-'))
     if r['bw'] is not None:
-        lines.append('w Bandwidth=%d' % r['bw'])
+        lines.append('w Bandwidth=%d%s' % (r['bw'], r.get('wextra', '')))
         typed.append('w %d' % r['bw'])
     if r['p']:
         lines.append('p accept 80,443')
